@@ -81,6 +81,11 @@ func (core *JApiCore) next(lexeme scanner.Lexeme) *jerr.JApiError {
 		return nil
 
 	case scanner.ContextExplicitOpening:
+		if core.currentDirective.HasExplicitContext {
+			// The context of this directive is open already: a second parenthesis
+			// would open nothing, and its closing one would close something else.
+			return core.japiError("there is no directive to which the "+lexeme.Type().String()+" belongs", lexeme.Begin())
+		}
 		core.processContextBegin()
 		return nil
 
